@@ -1,1 +1,770 @@
-/-! # C05 — property theorems (stub: not built yet) -/
+import KM.Lemmas.Session
+import KM.Gen.C05
+/-! # C05 — a session gains a factor only when its own user proves that factor
+
+Property theorems only. `step fixed` mirrors the repaired handlers of cmd/keymasterd, `events` is the
+ground truth about what the external verifiers (password backend, VIP service, Okta, the authenticator
+app's secret, the hardware token's key, the CLI token issuer) established and for whom; `log` is the
+concatenation of all events of the history. All statements are over ARBITRARY op lists, any number of
+users, cookies, push-cookie values, challenges — the adversary attaches any issued cookie and any
+auxiliary value to any request. -/
+namespace KM.Session
+open KM.Gen
+
+/-! ## 1. the level only ever contains factors verified for the session's own user -/
+
+/-- **Invariant.** In every reachable state, every session cookie that was ever issued carries only
+factor bits `i` for which `(subject, factor i)` is in the log of verification events. -/
+theorem c05_inv (t0 : Nat) (okta : Bool) (cfg : User → UserCfg) (ops : List Op) :
+    ∀ c ∈ (run fixed t0 okta cfg ops).cookies,
+      LevelOK (run fixed t0 okta cfg ops).log c.sub c.level :=
+  (runFrom_inv (init_inv t0 okta cfg) ops).cookies
+
+/-- the same for the cookies in each single response, from any state satisfying the invariant -/
+theorem c05_inv_response {s : State} (hs : Inv s) (op : Op) :
+    ∀ c ∈ (step fixed s op).2.cookies, LevelOK (step fixed s op).1.log c.sub c.level := by
+  intro c hc
+  exact (step_inv hs op).cookies c (List.mem_append_left _ hc)
+
+/-- handlers never touch the ghost fields (any variant) -/
+theorem handle_ghost (v : Variant) (s : State) (op : Op) :
+    (handle v s op).1.log = s.log ∧ (handle v s op).1.cookies = s.cookies := by
+  cases op <;> simp only [handle]
+  case login => unfold hLogin; (repeat' split) <;> exact ⟨rfl, rfl⟩
+  case vipOtp => unfold hVipOtp; (repeat' split) <;> exact ⟨rfl, rfl⟩
+  case pushStart => unfold hPushStart; (repeat' split) <;> exact ⟨rfl, rfl⟩
+  case approve => unfold hApprove; (repeat' split) <;> exact ⟨rfl, rfl⟩
+  case poll => unfold hPoll; (repeat' split) <;> exact ⟨rfl, rfl⟩
+  case totp => unfold hTotp; (repeat' split) <;> exact ⟨rfl, rfl⟩
+  case bootstrap => unfold hBootstrap; (repeat' split) <;> exact ⟨rfl, rfl⟩
+  case u2fBegin => unfold hU2fBegin; (repeat' split) <;> exact ⟨rfl, rfl⟩
+  case u2fFinish => unfold hU2fFinish; (repeat' split) <;> exact ⟨rfl, rfl⟩
+  case waBegin => unfold hWaBegin; (repeat' split) <;> exact ⟨rfl, rfl⟩
+  case waFinish => unfold hWaFinish; (repeat' split) <;> exact ⟨rfl, rfl⟩
+  case showToken => unfold hShowToken; (repeat' split) <;> exact ⟨rfl, rfl⟩
+  case sendDoc => unfold hSendDoc; (repeat' split) <;> exact ⟨rfl, rfl⟩
+  case logout => first | trivial | exact ⟨rfl, rfl⟩
+  case oktaOtp => unfold hOktaOtp; (repeat' split) <;> exact ⟨rfl, rfl⟩
+  case oktaPushStart => unfold hOktaPushStart; (repeat' split) <;> exact ⟨rfl, rfl⟩
+  case oktaApprove => unfold hOktaApprove; (repeat' split) <;> exact ⟨rfl, rfl⟩
+  case oktaPoll => unfold hOktaPoll; (repeat' split) <;> exact ⟨rfl, rfl⟩
+  case tick => first | trivial | exact ⟨rfl, rfl⟩
+  case sweep => first | trivial | exact ⟨rfl, rfl⟩
+
+/-- **The log is the history.** Every entry of the log is a ground-truth verification event of some op of
+the history, evaluated in the state in which that op happened (any variant of the handlers). -/
+theorem c05_log_is_history (v : Variant) (s : State) (ops : List Op) (e : User × Factor)
+    (h : e ∈ (runFrom v s ops).log) :
+    e ∈ s.log ∨ ∃ pre op post, ops = pre ++ op :: post ∧ e ∈ events (runFrom v s pre) op := by
+  induction ops generalizing s with
+  | nil => exact Or.inl h
+  | cons op ops ih =>
+    have h' : e ∈ (runFrom v (step v s op).1 ops).log := h
+    rcases ih _ h' with h1 | ⟨pre, op', post, hops, hev⟩
+    · have : (step v s op).1.log = events s op ++ s.log := by
+        show events s op ++ (handle v s op).1.log = _
+        rw [(handle_ghost v s op).1]
+      rw [this, List.mem_append] at h1
+      rcases h1 with h1 | h1
+      · exact Or.inr ⟨[], op, ops, rfl, h1⟩
+      · exact Or.inl h1
+    · exact Or.inr ⟨op :: pre, op', post, by rw [hops]; rfl, hev⟩
+
+/-- **Headline.** If a cookie issued anywhere in a history carries factor bit `i`, then bit `i` denotes a
+factor `f` and somewhere in that history an external verifier established `f` for the cookie's OWN
+subject (a device approval for a push sent to that user, a correct code for that user's secret, an
+assertion by that user's registered token, …). A verification for anybody else never suffices. -/
+theorem c05_factor_needs_own_verification (t0 : Nat) (okta : Bool) (cfg : User → UserCfg) (ops : List Op)
+    (c : Cookie) (hc : c ∈ (run fixed t0 okta cfg ops).cookies) (i : Nat) (hi : c.level.testBit i = true) :
+    ∃ f, bitFactor i = some f ∧
+      ∃ pre op post, ops = pre ++ op :: post ∧ (c.sub, f) ∈ events (run fixed t0 okta cfg pre) op := by
+  obtain ⟨f, hf, hm⟩ := c05_inv t0 okta cfg ops c hc i hi
+  refine ⟨f, hf, ?_⟩
+  rcases c05_log_is_history fixed (init t0 okta cfg) ops (c.sub, f) hm with h | h
+  · cases h
+  · exact h
+
+/-- the cookie a request carries (login carries none) -/
+def reqCookie : Op → Option Cookie
+  | .vipOtp c _ | .pushStart c _ | .poll c _ | .totp c _ | .bootstrap c _ | .u2fBegin c | .u2fFinish c _
+  | .waBegin c | .waFinish c _ | .showToken c _ | .sendDoc c _ | .logout c | .oktaOtp c _
+  | .oktaPushStart c | .oktaPoll c => c
+  | _ => none
+
+/-- **Subject.** A response never hands out a cookie for anybody but the user of the (issued) cookie the
+request carried — or, for a login, the user whose password was checked. -/
+theorem c05_subject_stable (s : State) (op : Op) (c' : Cookie) (hc : c' ∈ (step fixed s op).2.cookies) :
+    (∃ u, op = .login u true ∧ c'.sub = u) ∨
+    (∃ ck, reqCookie op = some ck ∧ ck ∈ s.cookies ∧ c'.sub = ck.sub) := by
+  have hc' : c' ∈ (handle fixed s op).2.2 := hc
+  cases op <;> simp only [handle] at hc'
+  case login u pw =>
+    unfold hLogin at hc'
+    split at hc'
+    · rename_i h; subst h
+      simp only [List.mem_singleton] at hc'; subst hc'
+      exact Or.inl ⟨u, rfl, rfl⟩
+    · cases hc'
+  case vipOtp c o =>
+    right; unfold hVipOtp at hc'
+    split at hc'
+    · cases hc'
+    · rename_i ck hauth
+      split at hc'
+      · simp only [List.mem_singleton] at hc'; subst hc'
+        exact ⟨ck, (auth_some hauth).2, (auth_some hauth).1, rfl⟩
+      · cases hc'
+  case pushStart c v => unfold hPushStart at hc'; (repeat' split at hc') <;> cases hc'
+  case approve k => unfold hApprove at hc'; (repeat' split at hc') <;> cases hc'
+  case poll c v =>
+    right; unfold hPoll at hc'
+    split at hc'
+    · cases hc'
+    · rename_i ck hauth
+      (repeat' split at hc') <;> first
+        | (simp only [List.mem_singleton] at hc'; subst hc'
+           exact ⟨ck, (auth_some hauth).2, (auth_some hauth).1, rfl⟩)
+        | cases hc'
+  case totp c code =>
+    right; unfold hTotp at hc'
+    split at hc'
+    · cases hc'
+    · rename_i ck hauth
+      (repeat' split at hc') <;> first
+        | (simp only [List.mem_singleton] at hc'; subst hc'
+           exact ⟨ck, (auth_some hauth).2, (auth_some hauth).1, rfl⟩)
+        | cases hc'
+  case bootstrap c o =>
+    right; unfold hBootstrap at hc'
+    split at hc'
+    · cases hc'
+    · rename_i ck hauth
+      (repeat' split at hc') <;> first
+        | (simp only [List.mem_singleton] at hc'; subst hc'
+           exact ⟨ck, (auth_some hauth).2, (auth_some hauth).1, rfl⟩)
+        | cases hc'
+  case u2fBegin c => unfold hU2fBegin at hc'; (repeat' split at hc') <;> cases hc'
+  case u2fFinish c a =>
+    right; unfold hU2fFinish at hc'
+    split at hc'
+    · cases hc'
+    · rename_i ck hauth
+      (repeat' split at hc') <;> first
+        | (simp only [List.mem_singleton] at hc'; subst hc'
+           exact ⟨ck, (auth_some hauth).2, (auth_some hauth).1, rfl⟩)
+        | cases hc'
+  case waBegin c => unfold hWaBegin at hc'; (repeat' split at hc') <;> cases hc'
+  case waFinish c a =>
+    right; unfold hWaFinish at hc'
+    split at hc'
+    · cases hc'
+    · rename_i ck hauth
+      (repeat' split at hc') <;> first
+        | (simp only [List.mem_singleton] at hc'; subst hc'
+           exact ⟨ck, (auth_some hauth).2, (auth_some hauth).1, rfl⟩)
+        | cases hc'
+  case showToken c l => unfold hShowToken at hc'; (repeat' split at hc') <;> cases hc'
+  case sendDoc c t =>
+    right; unfold hSendDoc at hc'
+    split at hc'
+    · cases hc'
+    · rename_i ck hauth
+      split at hc'
+      · cases hc'
+      · split at hc'
+        · cases hc'
+        · split at hc'
+          · rename_i hok
+            simp only [List.mem_singleton] at hc'; subst hc'
+            exact ⟨ck, (auth_some hauth).2, (auth_some hauth).1, hok.2.1⟩
+          · cases hc'
+  case logout c => cases hc'
+  case oktaOtp c o =>
+    right; unfold hOktaOtp at hc'
+    split at hc'
+    · cases hc'
+    · rename_i ck hauth
+      (repeat' split at hc') <;> first
+        | (simp only [List.mem_singleton] at hc'; subst hc'
+           exact ⟨ck, (auth_some hauth).2, (auth_some hauth).1, rfl⟩)
+        | cases hc'
+  case oktaPushStart c => unfold hOktaPushStart at hc'; (repeat' split at hc') <;> cases hc'
+  case oktaApprove u => unfold hOktaApprove at hc'; (repeat' split at hc') <;> cases hc'
+  case oktaPoll c =>
+    right; unfold hOktaPoll at hc'
+    split at hc'
+    · cases hc'
+    · rename_i ck hauth
+      (repeat' split at hc') <;> first
+        | (simp only [List.mem_singleton] at hc'; subst hc'
+           exact ⟨ck, (auth_some hauth).2, (auth_some hauth).1, rfl⟩)
+        | cases hc'
+  case tick => cases hc'
+  case sweep => cases hc'
+
+/-- **Push poll.** An accepted VIP poll means: the transaction found under the presented (unauthenticated)
+cookie value was started for the session's own user, is not expired, and the VIP service says that user
+approved it. -/
+theorem c05_poll_own_user (s : State) (c : Option Cookie) (V : Nat)
+    (h : (step fixed s (.poll c (some V))).2.accepted = true) :
+    ∃ ck tx u, auth s c = some ck ∧ s.push V = some tx ∧ tx.user = ck.sub ∧ ¬ pushExpired s tx ∧
+      s.svcTx tx.txid = some (u, true) := by
+  have h' : (hPoll fixed s c (some V)).2.2 ≠ [] := by
+    intro he
+    have : (step fixed s (.poll c (some V))).2.cookies = [] := he
+    simp [Out.accepted, this] at h
+  simp only [hPoll] at h'
+  split at h'
+  · exact absurd rfl h'
+  · rename_i ck hauth
+    split at h'
+    · exact absurd rfl h'
+    · rename_i tx htx
+      split at h'
+      · exact absurd rfl h'
+      · rename_i hu
+        split at h'
+        · exact absurd rfl h'
+        · rename_i he
+          split at h'
+          · exact absurd rfl h'
+          · exact absurd rfl h'
+          · rename_i u hsvc
+            refine ⟨ck, tx, u, hauth, htx, ?_, ?_, hsvc⟩
+            · apply Classical.byContradiction; intro hne; exact hu ⟨rfl, hne⟩
+            · intro hexp; exact he ⟨rfl, hexp⟩
+
+/-- **CLI token.** A CLI token is honoured only for the user of the browser session that presents it, and
+the cookie handed to the CLI is for that same user. -/
+theorem c05_cli_user (s : State) (c : Option Cookie) (t : CliTok)
+    (h : (step fixed s (.sendDoc c (some t))).2.accepted = true) :
+    ∃ ck, auth s c = some ck ∧ t ∈ s.toks ∧ t.user = ck.sub ∧ s.now < t.expiresAt ∧
+      (step fixed s (.sendDoc c (some t))).2.cookies = [⟨ck.sub, authTypeWebauthForCLI⟩] := by
+  have h' : (hSendDoc s c (some t)).2.2 ≠ [] := by
+    intro he
+    have : (step fixed s (.sendDoc c (some t))).2.cookies = [] := he
+    simp [Out.accepted, this] at h
+  show ∃ ck, auth s c = some ck ∧ t ∈ s.toks ∧ t.user = ck.sub ∧ s.now < t.expiresAt ∧
+      (hSendDoc s c (some t)).2.2 = [⟨ck.sub, authTypeWebauthForCLI⟩]
+  simp only [hSendDoc] at h'
+  split at h'
+  · exact absurd rfl h'
+  · rename_i ck hauth
+    split at h'
+    · exact absurd rfl h'
+    · rename_i hmask
+      split at h'
+      · rename_i hok
+        refine ⟨ck, hauth, hok.1, hok.2.1, hok.2.2, ?_⟩
+        simp only [hSendDoc, hauth]
+        rw [if_neg hmask, if_pos hok, hok.2.1]
+      · exact absurd rfl h'
+
+/-! ## 2. one-time values stop working once accepted -/
+
+theorem not_accepted_of_nil {o : Out} (h : o.cookies = []) : o.accepted = false := by
+  simp [Out.accepted, h]
+
+/-- an accepted TOTP code is spent -/
+theorem totp_accept_dead {s : State} {c : Option Cookie} {o : User} {k : Nat}
+    (h : (step fixed s (.totp c (some (o, k)))).2.accepted = true) :
+    TotpDead o k (step fixed s (.totp c (some (o, k)))).1 := by
+  have h' : (hTotp fixed s c (some (o, k))).2.2 ≠ [] := by
+    intro he
+    rw [not_accepted_of_nil (show (step fixed s (.totp c (some (o, k)))).2.cookies = [] from he)] at h
+    cases h
+  show k ≤ (((hTotp fixed s c (some (o, k))).1).prof o).lastTotp
+  simp only [hTotp] at h'
+  split at h'
+  · exact absurd rfl h'
+  · rename_i ck hauth
+    split at h'
+    · exact absurd rfl h'
+    · rename_i hne
+      split at h'
+      · rename_i hv
+        simp only [fixed, if_true] at h'
+        split at h'
+        · rename_i hlt
+          simp only [hTotp, hauth]
+          rw [if_neg hne, if_pos hv]
+          simp only [fixed, if_true]
+          rw [if_pos hlt]
+          simp [setLastTotp, upd, hv.2.1]
+        · exact absurd rfl h'
+      · exact absurd rfl h'
+
+/-- a spent TOTP code is refused whatever cookie it comes with -/
+theorem totp_dead_reject {s : State} {o : User} {k : Nat} (hd : TotpDead o k s) (c : Option Cookie) :
+    (step fixed s (.totp c (some (o, k)))).2.accepted = false := by
+  apply not_accepted_of_nil
+  show (hTotp fixed s c (some (o, k))).2.2 = []
+  simp only [hTotp]
+  split
+  · rfl
+  · split
+    · rfl
+    · split
+      · rename_i hv
+        simp only [fixed, if_true]
+        split
+        · rename_i hlt
+          have hd' : k ≤ (s.prof o).lastTotp := hd
+          rw [hv.2.1] at hd'
+          exact absurd hlt (Nat.not_lt_of_le hd')
+        · rfl
+      · rfl
+
+/-- **One-time TOTP.** Once a TOTP code has been accepted, the same code (same user's secret, same time
+step) is never accepted again — with any cookie, after any further history, in any later time step
+(in particular not in the adjacent step, where `totp.Validate` would still consider it valid). -/
+theorem c05_onetime_totp (s : State) (c c' : Option Cookie) (o : User) (k : Nat) (ops : List Op)
+    (h : (step fixed s (.totp c (some (o, k)))).2.accepted = true) :
+    (step fixed (runFrom fixed (step fixed s (.totp c (some (o, k)))).1 ops) (.totp c' (some (o, k)))).2.accepted
+      = false :=
+  totp_dead_reject (runFrom_shape_pred (fun _ _ hsh hd => totpDead_shape hsh hd) (totp_accept_dead h) ops) c'
+
+theorem boot_accept_dead {s : State} {c : Option Cookie} {o : User}
+    (h : (step fixed s (.bootstrap c (some o))).2.accepted = true) :
+    BootDead o (step fixed s (.bootstrap c (some o))).1 := by
+  have h' : (hBootstrap s c (some o)).2.2 ≠ [] := by
+    intro he
+    rw [not_accepted_of_nil (show (step fixed s (.bootstrap c (some o))).2.cookies = [] from he)] at h
+    cases h
+  show (((hBootstrap s c (some o)).1).prof o).boot = none
+  simp only [hBootstrap] at h'
+  split at h'
+  · exact absurd rfl h'
+  · rename_i ck hauth
+    split at h'
+    · exact absurd rfl h'
+    · rename_i e hb
+      split at h'
+      · exact absurd rfl h'
+      · rename_i hn
+        split at h'
+        · rename_i ho
+          simp only [hBootstrap, hauth, hb]
+          rw [if_neg hn, if_pos ho]
+          injection ho with ho
+          simp [clearBoot, upd, ho]
+        · exact absurd rfl h'
+
+theorem boot_dead_reject {s : State} {o : User} (hd : BootDead o s) (c : Option Cookie) :
+    (step fixed s (.bootstrap c (some o))).2.accepted = false := by
+  apply not_accepted_of_nil
+  show (hBootstrap s c (some o)).2.2 = []
+  simp only [hBootstrap]
+  split
+  · rfl
+  · rename_i ck hauth
+    split
+    · rfl
+    · rename_i e hb
+      split
+      · rfl
+      · split
+        · rename_i ho
+          injection ho with ho
+          have hd' : (s.prof o).boot = none := hd
+          rw [ho, hb] at hd'
+          cases hd'
+        · rfl
+
+/-- **One-time bootstrap OTP.** Once user `o`'s bootstrap OTP has been accepted it is never accepted again. -/
+theorem c05_onetime_bootstrap (s : State) (c c' : Option Cookie) (o : User) (ops : List Op)
+    (h : (step fixed s (.bootstrap c (some o))).2.accepted = true) :
+    (step fixed (runFrom fixed (step fixed s (.bootstrap c (some o))).1 ops) (.bootstrap c' (some o))).2.accepted
+      = false :=
+  boot_dead_reject (runFrom_shape_pred (fun _ _ hsh hd => bootDead_shape hsh hd) (boot_accept_dead h) ops) c'
+
+/-- after an accepted finish the challenge is pending for nobody -/
+theorem chal_dead_after_del {s : State} (hw : ChalWF s) {u : User} {ch : Chal} (hch : s.chal u = some ch) :
+    ChalDead ch.id (delChal s u) := by
+  refine ⟨hw.bound u ch hch, fun u' ch' h' => ?_⟩
+  simp only [delChal, upd] at h'
+  split at h'
+  · cases h'
+  · rename_i hne
+    intro hid
+    exact hne (hw.uniq u' u ch' ch h' hch hid)
+
+/-- what an accepted U2F finish tells: the state afterwards is `delChal`, and the assertion was over the
+pending challenge -/
+theorem u2fFinish_accept_shape {s : State} {c : Option Cookie} {a : Assertion}
+    (h' : (hU2fFinish fixed s c (some a)).2.2 ≠ []) :
+    ∃ (ck : Cookie) (ch : Chal), s.chal ck.sub = some ch ∧ a.chal = ch.id ∧
+      (hU2fFinish fixed s c (some a)).1 = delChal s ck.sub := by
+  have h2 := h'
+  simp only [hU2fFinish] at h2
+  split at h2
+  · exact absurd rfl h2
+  · rename_i ck hauth
+    split at h2
+    · exact absurd rfl h2
+    · rename_i hu
+      split at h2
+      · exact absurd rfl h2
+      · rename_i ch hch
+        split at h2
+        · exact absurd rfl h2
+        · rename_i hexp
+          split at h2
+          · rename_i hok
+            refine ⟨ck, ch, hch, hok.2.1, ?_⟩
+            simp only [hU2fFinish, hauth, hch]
+            rw [if_neg hu, if_neg hexp, if_pos hok]
+            split at h2
+            · split at h2
+              · rename_i hreg; rw [if_pos hreg]
+              · exact absurd rfl h2
+            · split at h2
+              · rename_i hwa; rw [if_pos hwa]; simp only [fixed, if_true]
+              · exact absurd rfl h2
+          · exact absurd rfl h2
+
+theorem waFinish_accept_shape {s : State} {c : Option Cookie} {a : Assertion}
+    (h' : (hWaFinish fixed s c (some a)).2.2 ≠ []) :
+    ∃ (ck : Cookie) (ch : Chal), s.chal ck.sub = some ch ∧ a.chal = ch.id ∧
+      (hWaFinish fixed s c (some a)).1 = delChal s ck.sub := by
+  have h2 := h'
+  simp only [hWaFinish] at h2
+  split at h2
+  · exact absurd rfl h2
+  · rename_i ck hauth
+    split at h2
+    · exact absurd rfl h2
+    · rename_i ch hch
+      split at h2
+      · exact absurd rfl h2
+      · rename_i hexp
+        split at h2
+        · exact absurd rfl h2
+        · rename_i hwa
+          split at h2
+          · rename_i hfound
+            split at h2
+            · rename_i hid
+              refine ⟨ck, ch, hch, hid, ?_⟩
+              simp only [hWaFinish, hauth, hch]
+              rw [if_neg hexp, if_neg hwa, if_pos hfound, if_pos hid]
+            · exact absurd rfl h2
+          · rename_i hnf
+            split at h2
+            · rename_i hok
+              refine ⟨ck, ch, hch, hok.2.2.2, ?_⟩
+              simp only [hWaFinish, hauth, hch]
+              rw [if_neg hexp, if_neg hwa, if_neg hnf, if_pos hok]
+            · exact absurd rfl h2
+
+theorem chalDead_assemble {k : Nat} {s : State} (evs : List (User × Factor)) (cs : List Cookie) (code : Nat)
+    (h : ChalDead k s) : ChalDead k (assemble evs (s, code, cs)) := h
+
+theorem u2fFinish_accept_dead {s : State} (hw : ChalWF s) {c : Option Cookie} {a : Assertion}
+    (h : (step fixed s (.u2fFinish c (some a))).2.accepted = true) :
+    ChalDead a.chal (step fixed s (.u2fFinish c (some a))).1 := by
+  have h' : (hU2fFinish fixed s c (some a)).2.2 ≠ [] := by
+    intro he
+    rw [not_accepted_of_nil (show (step fixed s (.u2fFinish c (some a))).2.cookies = [] from he)] at h
+    cases h
+  obtain ⟨ck, ch, hch, hid, hst⟩ := u2fFinish_accept_shape h'
+  have hd := chal_dead_after_del hw hch
+  rw [← hid, ← hst] at hd
+  exact hd
+
+theorem waFinish_accept_dead {s : State} (hw : ChalWF s) {c : Option Cookie} {a : Assertion}
+    (h : (step fixed s (.waFinish c (some a))).2.accepted = true) :
+    ChalDead a.chal (step fixed s (.waFinish c (some a))).1 := by
+  have h' : (hWaFinish fixed s c (some a)).2.2 ≠ [] := by
+    intro he
+    rw [not_accepted_of_nil (show (step fixed s (.waFinish c (some a))).2.cookies = [] from he)] at h
+    cases h
+  obtain ⟨ck, ch, hch, hid, hst⟩ := waFinish_accept_shape h'
+  have hd := chal_dead_after_del hw hch
+  rw [← hid, ← hst] at hd
+  exact hd
+
+theorem chal_dead_reject_u2f {s : State} {k : Nat} (hd : ChalDead k s) (c : Option Cookie) (a : Assertion)
+    (ha : a.chal = k) : (step fixed s (.u2fFinish c (some a))).2.accepted = false := by
+  apply not_accepted_of_nil
+  show (hU2fFinish fixed s c (some a)).2.2 = []
+  simp only [hU2fFinish]
+  split
+  · rfl
+  · rename_i ck hauth
+    split
+    · rfl
+    · split
+      · rfl
+      · rename_i ch hch
+        split
+        · rfl
+        · split
+          · rename_i hok
+            exact absurd (ha ▸ hok.2.1 : k = ch.id).symm (hd.2 _ _ hch)
+          · rfl
+
+theorem chal_dead_reject_wa {s : State} {k : Nat} (hd : ChalDead k s) (c : Option Cookie) (a : Assertion)
+    (ha : a.chal = k) : (step fixed s (.waFinish c (some a))).2.accepted = false := by
+  apply not_accepted_of_nil
+  show (hWaFinish fixed s c (some a)).2.2 = []
+  simp only [hWaFinish]
+  split
+  · rfl
+  · rename_i ck hauth
+    split
+    · rfl
+    · rename_i ch hch
+      split
+      · rfl
+      · split
+        · rfl
+        · split
+          · split
+            · rename_i hid
+              exact absurd (ha ▸ hid : k = ch.id).symm (hd.2 _ _ hch)
+            · rfl
+          · split
+            · rename_i hok
+              exact absurd (ha ▸ hok.2.2.2 : k = ch.id).symm (hd.2 _ _ hch)
+            · rfl
+
+theorem run_chalWF (t0 : Nat) (okta : Bool) (cfg : User → UserCfg) (ops : List Op) :
+    ChalWF (run fixed t0 okta cfg ops) :=
+  runFrom_shape_pred (fun _ _ hsh hw => chalWF_shape hsh hw) (init_chalWF t0 okta cfg) ops
+
+/-- **One-time challenge.** Once a hardware-token challenge has been answered successfully (through either
+finish endpoint), no assertion over that same challenge — by any token, with any cookie, through either
+endpoint, after any further history — is accepted again. -/
+theorem c05_onetime_challenge (t0 : Nat) (okta : Bool) (cfg : User → UserCfg) (ops1 ops2 : List Op)
+    (viaWA viaWA' : Bool) (c c' : Option Cookie) (a a' : Assertion) (hsame : a'.chal = a.chal)
+    (h : (step fixed (run fixed t0 okta cfg ops1)
+            (if viaWA then .waFinish c (some a) else .u2fFinish c (some a))).2.accepted = true) :
+    (step fixed
+        (runFrom fixed (step fixed (run fixed t0 okta cfg ops1)
+            (if viaWA then .waFinish c (some a) else .u2fFinish c (some a))).1 ops2)
+        (if viaWA' then .waFinish c' (some a') else .u2fFinish c' (some a'))).2.accepted = false := by
+  have hw := run_chalWF t0 okta cfg ops1
+  have hd : ChalDead a.chal (step fixed (run fixed t0 okta cfg ops1)
+      (if viaWA then .waFinish c (some a) else .u2fFinish c (some a))).1 := by
+    cases viaWA with
+    | true => exact waFinish_accept_dead hw h
+    | false => exact u2fFinish_accept_dead hw h
+  have hd2 := runFrom_shape_pred (P := ChalDead a.chal) (fun _ _ hsh hd => chalDead_shape hsh hd) hd ops2
+  cases viaWA' with
+  | true => exact chal_dead_reject_wa hd2 c' a' hsame
+  | false => exact chal_dead_reject_u2f hd2 c' a' hsame
+
+/-! ## 3. expired values never work (any state, any cookie) -/
+
+/-- a TOTP code of a step older than the previous one is refused -/
+theorem c05_expired_totp (s : State) (c : Option Cookie) (o : User) (k : Nat) (h : k + 1 < s.now) :
+    (step fixed s (.totp c (some (o, k)))).2.accepted = false := by
+  apply not_accepted_of_nil
+  show (hTotp fixed s c (some (o, k))).2.2 = []
+  simp only [hTotp]
+  split
+  · rfl
+  · split
+    · rfl
+    · split
+      · rename_i hv
+        exact absurd hv.2.2.1 (Nat.not_le_of_lt h)
+      · rfl
+
+/-- an expired bootstrap OTP is refused -/
+theorem c05_expired_bootstrap (s : State) (c : Option Cookie) (ck : Cookie) (o : Option User) (e : Nat)
+    (hauth : auth s c = some ck) (hb : (s.prof ck.sub).boot = some e) (h : e ≤ s.now) :
+    (step fixed s (.bootstrap c o)).2.accepted = false := by
+  apply not_accepted_of_nil
+  show (hBootstrap s c o).2.2 = []
+  unfold hBootstrap
+  simp only [hauth, hb]
+  rw [if_pos (Or.inr (Or.inr h))]
+
+/-- an expired hardware-token challenge is refused by both finish endpoints (whether or not the periodic
+cleanup has run) -/
+theorem c05_expired_challenge (s : State) (c : Option Cookie) (ck : Cookie) (a : Option Assertion) (ch : Chal)
+    (hauth : auth s c = some ck) (hch : s.chal ck.sub = some ch) (h : chalExpired s ch) :
+    (step fixed s (.u2fFinish c a)).2.accepted = false ∧ (step fixed s (.waFinish c a)).2.accepted = false := by
+  constructor
+  · apply not_accepted_of_nil
+    show (hU2fFinish fixed s c a).2.2 = []
+    unfold hU2fFinish
+    simp only [hauth, hch]
+    split
+    · rfl
+    · rw [if_pos ⟨rfl, h⟩]
+  · apply not_accepted_of_nil
+    show (hWaFinish fixed s c a).2.2 = []
+    unfold hWaFinish
+    simp only [hauth, hch]
+    rw [if_pos ⟨rfl, h⟩]
+
+/-- an expired push transaction is refused (whether or not the periodic cleanup has run) -/
+theorem c05_expired_push (s : State) (c : Option Cookie) (V : Nat) (tx : PushTx)
+    (htx : s.push V = some tx) (h : pushExpired s tx) :
+    (step fixed s (.poll c (some V))).2.accepted = false := by
+  apply not_accepted_of_nil
+  show (hPoll fixed s c (some V)).2.2 = []
+  unfold hPoll
+  split
+  · rfl
+  · simp only [htx]
+    split
+    · rfl
+    · rw [if_pos ⟨rfl, h⟩]
+
+/-- an expired CLI token is refused -/
+theorem c05_expired_cli (s : State) (c : Option Cookie) (t : CliTok) (h : t.expiresAt ≤ s.now) :
+    (step fixed s (.sendDoc c (some t))).2.accepted = false := by
+  apply not_accepted_of_nil
+  show (hSendDoc s c (some t)).2.2 = []
+  simp only [hSendDoc]
+  split
+  · rfl
+  · split
+    · rfl
+    · split
+      · rename_i hok
+        exact absurd hok.2.2 (Nat.not_lt_of_le h)
+      · rfl
+
+/-- after the cleanup pass no expired push transaction or challenge is left at all -/
+theorem c05_sweep_removes_expired (s : State) (V : Nat) (u : User) :
+    (∀ tx, (step fixed s .sweep).1.push V = some tx → ¬ pushExpired s tx) ∧
+    (∀ ch, (step fixed s .sweep).1.chal u = some ch → ¬ chalExpired s ch) := by
+  constructor
+  · intro tx h
+    have h' : sweepPush s V = some tx := h
+    unfold sweepPush at h'
+    split at h'
+    · split at h'
+      · cases h'
+      · rename_i hne; injection h' with h'; subst h'; exact hne
+    · cases h'
+  · intro ch h
+    have h' : sweepChal s u = some ch := h
+    unfold sweepChal at h'
+    split at h'
+    · split at h'
+      · cases h'
+      · rename_i hne; injection h' with h'; subst h'; exact hne
+    · cases h'
+
+/-! ## 4. the as-found handlers violate the property: decided concrete histories -/
+
+def cfgAll : User → UserCfg := fun _ => ⟨true, true, true, 0⟩
+def noVipCheck : Variant := { fixed with vipUserCheck := false }
+def noTotpMatched : Variant := { fixed with totpMatched := false }
+def noChalExpiry : Variant := { fixed with chalExpiry := false }
+def noChalOnce : Variant := { fixed with chalOnce := false }
+def noPushExpiry : Variant := { fixed with pushExpiry := false }
+
+/-- responses of a whole history -/
+def outs (v : Variant) (s : State) : List Op → List Out
+  | [] => []
+  | op :: ops => (step v s op).2 :: outs v (step v s op).1 ops
+
+/-- bob (1) starts a push under cookie value 7 and approves it on his device; alice's (0) password-only
+session polls with 7 -/
+def histVip : List Op :=
+  [.login 0 true, .login 1 true, .pushStart (some ⟨1, 2⟩) (some 7), .approve 0, .poll (some ⟨0, 2⟩) (some 7)]
+
+/-- as found: alice's session receives the SymantecVIP bit (level 18) although the only VIP verification
+in the whole history is bob's; repaired: 412 -/
+theorem c05_unfixed_counterexample_vip :
+    (outs noVipCheck (init 1000 false cfgAll) histVip).getLast? = some ⟨200, [⟨0, 18⟩], []⟩ ∧
+    (0, Factor.vip) ∉ (runFrom noVipCheck (init 1000 false cfgAll) histVip).log ∧
+    (1, Factor.vip) ∈ (runFrom noVipCheck (init 1000 false cfgAll) histVip).log ∧
+    (outs fixed (init 1000 false cfgAll) histVip).getLast? = some ⟨412, [], []⟩ := by
+  decide
+
+/-- alice's code of step 1000 is accepted, refused on immediate replay, and — one tick later — … -/
+def histTotp : List Op :=
+  [.login 0 true, .totp (some ⟨0, 2⟩) (some (0, 1000)), .totp (some ⟨0, 2⟩) (some (0, 1000)), .tick,
+   .totp (some ⟨0, 2⟩) (some (0, 1000))]
+
+/-- … as found: accepted AGAIN in the adjacent step; repaired: refused -/
+theorem c05_unfixed_counterexample_totp :
+    (outs noTotpMatched (init 1000 false cfgAll) histTotp).map (·.code) = [200, 200, 401, 1, 200] ∧
+    (outs fixed (init 1000 false cfgAll) histTotp).map (·.code) = [200, 200, 401, 1, 401] := by
+  decide
+
+def histChalExpiry : List Op :=
+  [.login 0 true, .waBegin (some ⟨0, 2⟩), .tick, .tick, .waFinish (some ⟨0, 2⟩) (some ⟨0, .wa, 0⟩)]
+
+/-- as found: a challenge that expired a minute ago (and was not swept yet) is still honoured -/
+theorem c05_unfixed_counterexample_challenge_expiry :
+    (outs noChalExpiry (init 1000 false cfgAll) histChalExpiry).map (·.code) = [200, 200, 1, 1, 200] ∧
+    (outs fixed (init 1000 false cfgAll) histChalExpiry).map (·.code) = [200, 200, 1, 1, 400] := by
+  decide
+
+def histChalOnce : List Op :=
+  [.login 0 true, .u2fBegin (some ⟨0, 2⟩), .u2fFinish (some ⟨0, 2⟩) (some ⟨0, .wa, 0⟩),
+   .u2fFinish (some ⟨0, 2⟩) (some ⟨0, .wa, 0⟩)]
+
+/-- as found: the same sign response (webauthn-registered key) is accepted twice over one challenge -/
+theorem c05_unfixed_counterexample_challenge_reuse :
+    (outs noChalOnce (init 1000 false cfgAll) histChalOnce).map (·.code) = [200, 200, 200, 200] ∧
+    (outs fixed (init 1000 false cfgAll) histChalOnce).map (·.code) = [200, 200, 200, 400] := by
+  decide
+
+def histPushExpiry : List Op :=
+  [.login 0 true, .pushStart (some ⟨0, 2⟩) (some 3), .approve 0, .tick, .tick, .tick, .tick,
+   .poll (some ⟨0, 2⟩) (some 3)]
+
+/-- as found: a push transaction is honoured after its 120 s lifetime until the cleanup runs -/
+theorem c05_unfixed_counterexample_push_expiry :
+    (outs noPushExpiry (init 1000 false cfgAll) histPushExpiry).getLast?.map (·.code) = some 200 ∧
+    (outs fixed (init 1000 false cfgAll) histPushExpiry).getLast?.map (·.code) = some 412 := by
+  decide
+
+/-! ## 5. the source as it is now (tables regenerated from /repo on every run) -/
+
+open KM.SessionSites in
+/-- the constants each handler of the MODEL ORs into the level -/
+def modelConsts : HandlerId → Option (List Nat)
+  | .vipAuth | .vipPollCheck => some [authTypeSymantecVIP]
+  | .totpAuth => some [authTypeTOTP]
+  | .oktaOtp | .oktaPollCheck => some [authTypeOkta2FA]
+  | .bootstrapOtp => some [authTypeBootstrapOTP]
+  | .u2fSignResponse => some [authTypeU2F]
+  | .webauthnAuthFinish => some [authTypeU2F, authTypeFIDO2]
+  | .other => none
+
+open KM.SessionSites in
+/-- **Sites.** Every `updateAuthCookieAuthlevel` call in cmd/keymasterd ORs, onto the level of the cookie
+re-verified in that very request, exactly the constants the model's handler ORs; the VIP poll compares the
+transaction's user with the session user and the Okta poll is keyed by the session user; the three
+handlers that consume a stored one-time entry refuse it once `ExpiresAt` has passed; every hardware-token
+upgrade is preceded by deleting the pending challenge; `validateUserTOTP` stores the matched step. -/
+theorem c05_sites :
+    upgradeSites.all (fun s => s.base == .session && modelConsts s.handler == some s.consts) = true ∧
+    upgradeSites.length = 9 ∧
+    vipPollBinding = .checked ∧ oktaPollBinding = .keyedBySessionUser ∧
+    expirySites = [(.vipPollCheck, true), (.u2fSignResponse, true), (.webauthnAuthFinish, true)] ∧
+    challengeConsumed = [(.u2fSignResponse, true), (.u2fSignResponse, true), (.webauthnAuthFinish, true)] ∧
+    totpStored = .matchedStep := by
+  decide
+
+/-- the bit constants of the model are the ones of app.go -/
+theorem c05_consts :
+    authTypePassword = 2 ^ 1 ∧ authTypeU2F = 2 ^ 3 ∧ authTypeSymantecVIP = 2 ^ 4 ∧ authTypeTOTP = 2 ^ 6 ∧
+    authTypeOkta2FA = 2 ^ 7 ∧ authTypeBootstrapOTP = 2 ^ 8 ∧ authTypeWebauthForCLI = 2 ^ 10 ∧
+    authTypeFIDO2 = 2 ^ 11 ∧ vipLife = 4 ∧ chalLife = 1 := by
+  decide
+
+/-! ## non-vacuity -/
+
+/-- the hypotheses of the theorems above are satisfiable: a history in which a second factor IS gained
+(alice logs in and presents her own TOTP code), and one in which a challenge is answered -/
+example : (outs fixed (init 1000 false cfgAll) [.login 0 true, .totp (some ⟨0, 2⟩) (some (0, 1000))]).map
+    (fun o => (o.code, o.cookies, o.accepted)) = [(200, [⟨0, 2⟩], true), (200, [⟨0, 66⟩], true)] := by decide
+
+example : (step fixed (run fixed 1000 false cfgAll [.login 0 true, .waBegin (some ⟨0, 2⟩)])
+    (.waFinish (some ⟨0, 2⟩) (some ⟨0, .wa, 0⟩))).2 = ⟨200, [⟨0, 2058⟩], [(0, .hwToken)]⟩ := by decide
+
+example : Inv (init 1000 false cfgAll) := init_inv _ _ _
+
+end KM.Session
